@@ -303,7 +303,7 @@ def export_after_unlock(u255: bool, rsa: bool, raises: bool, x: int, y: int) -> 
 
 @ob('O6.4', 'the exported protected key depends on the secret integers only through the cipher: with a cipher whose output ignores its input the export is '
             'the same octets whatever the secret integers are', 'algorithm in {RSA, DSA, EdDSA}; 4 symbolic non-zero secret octets (same integer sizes: the ciphertext length necessarily equals the plaintext length) against fixed ones', cond_timeout={'q': 280, 't': 900},
-    flags=('symmpi',), partitions=[['ai == 0'], ['ai == 1'], ['ai == 3']])
+    flags=('symmpi',), partitions=[['ai == 0', 'b < 16'], ['ai == 0', 'b >= 16'], ['ai == 1'], ['ai == 3']])
 def export_independent(ai: int, a: int, b: int, c: int, d: int) -> bool:
     """
     pre: ai in (0, 1, 3)
